@@ -27,7 +27,10 @@ fn turn_code(t: Turn) -> String {
     }
 }
 /// is the bucket's card abstraction unchanged when the opponent's hole cards are replaced?
-fn opp_independent(node: &Node, enc: &Encoder) -> u8 {
+/// `encoded`: the tree was built through the Encoder (solver trees): then the abstraction the NODE carries must be the
+/// encoder's abstraction of the actor's own cards and the board, whatever the opponent holds; hand-built trees carry
+/// an abstraction fixed per street, for which only the encoder's function itself is probed.
+fn opp_independent(node: &Node, enc: &Encoder, encoded: bool) -> u8 {
     let g = node.data().game();
     let seats = g.verif_seats();
     let actor = match g.turn() {
@@ -44,7 +47,11 @@ fn opp_independent(node: &Node, enc: &Encoder) -> u8 {
     let mut holes = [seats[0].cards(), seats[1].cards()];
     holes[1 - actor] = Hole::from(Hand::from(a | b));
     let g2 = g.clone().verif_with_holes(holes);
-    (enc.abstraction(&g2) == enc.abstraction(g)) as u8
+    if encoded {
+        (*node.data().abstraction() == enc.abstraction(&g2)) as u8
+    } else {
+        (enc.abstraction(&g2) == enc.abstraction(g)) as u8
+    }
 }
 
 pub fn run(o: &Opts, deck: &str) -> String {
@@ -60,6 +67,7 @@ pub fn run(o: &Opts, deck: &str) -> String {
         let prof = bp.verif_profile();
         for epoch in 0..epochs {
             let mut updates = vec![];
+            let mut rescoring: Option<Vec<Info>> = None;
             for k in 0..per_epoch {
                 let fresh = epoch == 0 && k == 0;
                 let tree = bp.verif_tree();
@@ -80,7 +88,10 @@ pub fn run(o: &Opts, deck: &str) -> String {
                     let any = first.node();
                     // every Info shares the same tree; reach it through any node's graph
                     let t = TreeView(any.graph());
-                    out.line(&dump_view(&t, tree_walker(&p), &p, epoch, fresh, &dumped).replacen(" | ", &format!(" {} | ", ntrees), 1));
+                    out.line(&dump_view(&t, tree_walker(&p), &p, epoch, fresh, true, &dumped).replacen(" | ", &format!(" {} | ", ntrees), 1));
+                }
+                if k == per_epoch - 1 && epoch % 3 == 1 {
+                    rescoring = Some(dumped.iter().map(|d| d.0.clone()).collect());
                 }
                 for info in infos {
                     let cf = p.counterfactual(info);
@@ -92,6 +103,21 @@ pub fn run(o: &Opts, deck: &str) -> String {
                 let bucket = cf.info().node().bucket().clone();
                 p.add_regret(&bucket, cf.regret());
                 p.add_policy(&bucket, cf.policy());
+            }
+            // the information sets of the epoch's last tree scored AGAIN, now that the profile has moved (same traverser):
+            // the recorded regret is a function of (tree, profile), not of what was computed before
+            if let Some(kept) = rescoring.take() {
+                let mut dumped2: Vec<(Info, Vec<(String, u32)>, Vec<(String, u32)>)> = vec![];
+                for info in kept.iter() {
+                    let r = catch(|| p.regret_vector(info));
+                    let rv = r.as_ref().map(|m| m.iter().map(|(e, v)| (edge_tok(e), v.to_bits())).collect()).unwrap_or(vec![("P".into(), 0)]);
+                    dumped2.push((info.clone(), rv, vec![]));
+                }
+                if let Some(first) = kept.first() {
+                    let t = TreeView(first.node().graph());
+                    ntrees += 1;
+                    out.line(&dump_view(&t, tree_walker(&p), &p, epoch, false, true, &dumped2).replacen(" | ", &format!(" {} | ", ntrees), 1));
+                }
             }
             p.next();
         }
@@ -152,7 +178,72 @@ pub fn run(o: &Opts, deck: &str) -> String {
             let any = first.node();
             nnodes += any.graph().node_count() as u64;
             let t = TreeView(any.graph());
-            out.line(&dump_view(&t, tree_walker(p), p, p.epochs(), false, &dumped).replacen(" | ", &format!(" {} | ", ntrees), 1));
+            out.line(&dump_view(&t, tree_walker(p), p, p.epochs(), false, false, &dumped).replacen(" | ", &format!(" {} | ", ntrees), 1));
+        }
+        // the same tree under a profile in which every action the opponent was sampled to take has a denormal weight
+        // (3.8e-41: what add_policy stores at epoch 0 for an action without positive regret): reaches underflow in
+        // binary32, values become inf / NaN -- recorded regrets must still be finite, inside the clamp, and nothing aborts
+        if let Some(first) = infos.first() {
+            let graph = first.node().graph();
+            let walker = profile.walker();
+            let mut tiny: std::collections::HashSet<(u64, u64, u64, u64)> = Default::default();
+            let mut skewed: std::collections::HashSet<(u64, u64, u64)> = Default::default();
+            for ix in graph.node_indices() {
+                let node = Node::from((ix, graph));
+                if node.player() != walker && node.player() != Player::chance() {
+                    for c in node.children() {
+                        if let Some(e) = c.incoming() {
+                            let b = node.bucket();
+                            tiny.insert((u64::from(b.0), u64::from(b.1), u64::from(b.2), u64::from(*e)));
+                            skewed.insert((u64::from(b.0), u64::from(b.1), u64::from(b.2)));
+                        }
+                    }
+                }
+            }
+            let rows: Vec<(u64, u64, u64, u64, f32, f32)> = profile
+                .verif_rows()
+                .into_iter()
+                .map(|r| {
+                    if tiny.contains(&(r.0, r.1, r.2, r.3)) { (r.0, r.1, r.2, r.3, r.4, f32::from_bits(27_000)) }
+                    else if skewed.contains(&(r.0, r.1, r.2)) { (r.0, r.1, r.2, r.3, r.4, 1.0) }
+                    else { r }
+                })
+                .collect();
+            // ... and under a profile that merely makes the sampled line unlikely (each sampled opponent action at ~2%:
+            // the line's probability falls below 1e-7 without any underflow): a full `tree` line, estimator included
+            {
+                let rows2: Vec<(u64, u64, u64, u64, f32, f32)> = profile
+                    .verif_rows()
+                    .into_iter()
+                    .map(|r| {
+                        if tiny.contains(&(r.0, r.1, r.2, r.3)) { (r.0, r.1, r.2, r.3, r.4, 0.02) }
+                        else if skewed.contains(&(r.0, r.1, r.2)) { (r.0, r.1, r.2, r.3, r.4, 1.0) }
+                        else { r }
+                    })
+                    .collect();
+                let mut q2 = Profile::verif_from_rows(&rows2);
+                q2.verif_set_epochs(profile.epochs());
+                let mut dumped2: Vec<(Info, Vec<(String, u32)>, Vec<(String, u32)>)> = vec![];
+                for info in infos.iter() {
+                    let r = catch(|| q2.regret_vector(info));
+                    let rv = r.as_ref().map(|m| m.iter().map(|(e, v)| (edge_tok(e), v.to_bits())).collect()).unwrap_or(vec![("P".into(), 0)]);
+                    dumped2.push((info.clone(), rv, vec![]));
+                }
+                let t = TreeView(graph);
+                ntrees += 1;
+                out.line(&dump_view(&t, tree_walker(&q2), &q2, q2.epochs(), false, false, &dumped2).replacen(" | ", &format!(" {} | ", ntrees), 1));
+            }
+            let mut q = Profile::verif_from_rows(&rows);
+            q.verif_set_epochs(profile.epochs());
+            let toks: Vec<String> = infos
+                .iter()
+                .map(|info| {
+                    let r = catch(|| q.regret_vector(info));
+                    format!("I{}|{}|{}", bkey(info.node().bucket()), info.roots().len(),
+                        r.map(|m| m.iter().map(|(e, v)| format!("{}={}", edge_tok(e), v.to_bits())).collect::<Vec<_>>().join(",")).unwrap_or("P".into()))
+                })
+                .collect();
+            out.line(&format!("utree {} | {}", ntrees, toks.join(" ")));
         }
     }
     let lines = out.finish();
@@ -167,7 +258,7 @@ pub struct TreeView<'a>(pub &'a DiGraph<Data, Edge>);
 fn tree_walker(p: &Profile) -> Player {
     p.walker()
 }
-pub fn dump_view(t: &TreeView, walker: Player, profile: &Profile, epoch: usize, fresh: bool, infos: &[(Info, Vec<(String, u32)>, Vec<(String, u32)>)]) -> String {
+pub fn dump_view(t: &TreeView, walker: Player, profile: &Profile, epoch: usize, fresh: bool, encoded: bool, infos: &[(Info, Vec<(String, u32)>, Vec<(String, u32)>)]) -> String {
     let enc = Encoder::default();
     let w = match walker { Player(Turn::Choice(i)) => i, _ => 9 };
     let mut toks: Vec<String> = vec![];
@@ -196,7 +287,7 @@ pub fn dump_view(t: &TreeView, walker: Player, profile: &Profile, epoch: usize, 
         };
         toks.push(format!(
             "{}|{}|{}|{}|{}|{}|{}|{}|{}|{}",
-            node.index().index(), parent, inc, state_str(g), turn_code(g.turn()), bkey(node.bucket()), sigma, pays, opp_independent(&node, &enc), menu_w
+            node.index().index(), parent, inc, state_str(g), turn_code(g.turn()), bkey(node.bucket()), sigma, pays, opp_independent(&node, &enc, encoded), menu_w
         ));
     }
     for (info, regrets, policy) in infos {
